@@ -17,7 +17,7 @@ from mc.checks.c10 import consume_flat
 
 LEVEL = "model_checking"
 SCOPE = "prefix"
-W_ENTRIES = ("flat_to_frames", "stream_frames")
+W_ENTRIES = ("flat_to_frames", "stream_frames", "flat_to_file_raw")
 
 
 # --------------------------------------------------------------- write side
@@ -70,6 +70,72 @@ def observe_write(api: str, cls: str, entry: str, seq, frame_size: int, preset):
     return log, frames
 
 
+class RecordingRaw(io.RawIOBase):
+    """Unbuffered output (a pipe/socket opened with buffering=0) that logs every write."""
+
+    def __init__(self, log: list) -> None:
+        super().__init__()
+        self.log = log
+        self.buf = bytearray()
+
+    def writable(self) -> bool:
+        return True
+
+    def write(self, b) -> int:
+        self.buf += bytes(b)
+        self.log.append(("write", len(self.buf)))
+        return len(b)
+
+
+def observe_to_file(api: str, cls: str, seq, frame_size: int, preset, grouped: bool):
+    """flat/grouped_stream_to_file into an unbuffered raw output; -> (log, bytes)."""
+    log: list = []
+    conv = T.st_to_generic if api == "generic" else T.st_to_rdflib
+    stmts = [conv(s) for s in seq]
+
+    def source():
+        for i, s in enumerate(stmts):
+            log.append(("pull", i + 1))
+            yield s
+
+    opts = DR.make_options(cls, preset, frame_size, True)
+    out = RecordingRaw(log)
+    if api == "generic":
+        from pyjelly.integrations.generic import serialize as ser  # noqa: PLC0415
+    else:
+        from pyjelly.integrations.rdflib import serialize as ser  # noqa: PLC0415
+    ser.flat_stream_to_file(source(), out, opts)
+    return log, bytes(out.buf)
+
+
+def judge_to_file(log, data: bytes, n: int) -> list[tuple[str, str]]:
+    """Every frame but the last must have reached the output before the statement after the one
+    that completed it is requested."""
+    frames = jwire.read_delimited(data)
+    offs = jwire.frame_offsets(data)
+    done = 0
+    due = []  # (statement index that completed the frame, end offset)
+    for f, (_, end) in zip(frames, offs):
+        done += sum(1 for r in f["rows"] if r["kind"] in ("triple", "quad"))
+        due.append((done, end))
+    if done != n:
+        return [("lost", f"{done} statements in the output for {n} given")]
+    written = 0
+    fails = []
+    for ev in log:
+        if ev[0] == "write":
+            written = ev[1]
+        else:
+            k = ev[1]
+            for j, end in due[:-1]:
+                if j < k and written < end:
+                    fails.append(("held-back", f"when statement {k} was requested only {written} "
+                                               f"bytes had reached the output, the frame completed "
+                                               f"by statement {j} ends at byte {end}"))
+                    return fails
+    return fails
+
+
 def judge_write(log, frames, n: int, frame_size: int) -> list[tuple[str, str]]:
     fails: list[tuple[str, str]] = []
     rows = [r for f in frames for r in f["rows"]]
@@ -112,6 +178,10 @@ def run_write_case(case: dict) -> list[tuple[str, str]]:
     cls = case["cls"]
     alpha = AL.alphabet(SCOPE, 3 if cls == "triple" else 4)
     seq = [alpha[i] for i in case["seq"]]
+    if case["entry"] == "flat_to_file_raw":
+        log, data = observe_to_file(case["api"], cls, seq, case["frame_size"],
+                                    tuple(case["preset"]), False)
+        return judge_to_file(log, data, len(seq))
     if case["entry"] == "graph":
         g = seq[0][3]
         seq = [(*s[:3], g) for s in seq]
@@ -143,8 +213,14 @@ def write_shard(job) -> dict:
                 if entry == "graph":
                     g = seq[0][3]
                     seq = [(*s[:3], g) for s in seq]
-                log, frames = observe_write(api, cls_, entry, seq, fs, preset)
-                fails = judge_write(log, frames, len(seq), fs)
+                if entry == "flat_to_file_raw":
+                    log, data = observe_to_file(api, cls_, seq, fs, preset, False)
+                    fails = judge_to_file(log, data, len(seq))
+                    log = [e for e in log if e[0] == "pull"] + [("frame", 0, 0)] * len(
+                        jwire.frame_offsets(data))
+                else:
+                    log, frames = observe_write(api, cls_, entry, seq, fs, preset)
+                    fails = judge_write(log, frames, len(seq), fs)
             except Exception as e:  # noqa: BLE001
                 fails = [("raised", f"{type(e).__name__}: {e}")]
                 log = []
@@ -240,7 +316,8 @@ def run(ctx) -> None:
         samples=merged["samples"],
         rule=(
             f"write: every sequence of length<={L} over the 'prefix' scope x frame_size 1..8 x "
-            "{flat_stream_to_frames, stream_frames} x {Triple,Quad}Stream and GraphStream.graph() "
+            "{flat_stream_to_frames, stream_frames, flat_stream_to_file into an unbuffered raw "
+            "output that logs every write} x {Triple,Quad}Stream and GraphStream.graph() "
             "x {generic, rdflib}; states = distinct (frame_size, pulls, rows handed out) "
             "observations, transitions = generator steps (pulls and yields) observed; read: every "
             "base stream x every frame boundary j x {raw, buffered (socket.makefile shape), "
